@@ -364,3 +364,53 @@ func (c *Ctx) mapUpdateSites(fn *ssa.Function) []updSite {
 	}
 	return out
 }
+
+// throughHelpers lifts an instruction predicate over one or two levels of same-module helper calls: the
+// result holds for an instruction that satisfies pred itself, or that is a static call to a module
+// function (not a closure of another function) whose body contains an instruction for which it holds.
+// Use it for predicates that do not depend on the instruction's operands in the caller.
+func (c *Ctx) throughHelpers(pred InstrPred) InstrPred {
+	memo := map[*ssa.Function]int{}
+	var has func(g *ssa.Function, d int) bool
+	var lifted func(in ssa.Instruction, d int) bool
+	has = func(g *ssa.Function, d int) bool {
+		switch memo[g] {
+		case 1:
+			return true
+		case 2, 3:
+			return false
+		}
+		memo[g] = 3
+		res := false
+		for _, f := range core.WithClosures(g) {
+			for _, b := range f.Blocks {
+				for _, x := range b.Instrs {
+					if lifted(x, d) {
+						res = true
+					}
+				}
+			}
+		}
+		if res {
+			memo[g] = 1
+		} else {
+			memo[g] = 2
+		}
+		return res
+	}
+	lifted = func(in ssa.Instruction, d int) bool {
+		if pred(in) {
+			return true
+		}
+		call, ok := in.(ssa.CallInstruction)
+		if !ok || d >= 2 {
+			return false
+		}
+		g := core.StaticCallee(call)
+		if g == nil || len(g.Blocks) == 0 || !c.P.InModule(g) {
+			return false
+		}
+		return has(g, d+1)
+	}
+	return func(in ssa.Instruction) bool { return lifted(in, 0) }
+}
